@@ -134,6 +134,18 @@ def gen_idx(tier, seed, want_big=True):
         cid += 1
         cases.append(idx_case("f%d" % cid, cfg, 1, keys, qs))
         stats["styles"]["steep+far"] = stats["styles"].get("steep+far", 0) + 1
+    # binary-search routing (EpsilonRecursive above the threshold): rough data, levels larger than the window, every key queried
+    for cfg in [c for c in cfgs if c["epsrec"] > 512 // (c["kbits"] // 8 + (8 if c["fdouble"] else 4) + 4) and c["eps"] <= 8]:
+        lo, hi = krange(cfg["kbits"], cfg["signed"])
+        for j in range(1 if tier == "quick" else 8):
+            n = 2500 if tier == "quick" else 6000
+            x, keys = max(lo, 0) + 10, []
+            for _ in range(n):
+                x += 1 + int(rng.paretovariate(0.9)) % (1 << 20); keys.append(min(hi - 1, x))
+            keys = sorted(keys)
+            cid += 1
+            cases.append(idx_case("w%d" % cid, cfg, 1, keys, sorted(set(keys))))
+            stats["styles"]["bsearch-routing"] = stats["styles"].get("bsearch-routing", 0) + 1
     # floating-point KEY types (judged only, not modelled): moderate densities, duplicates, negative keys
     for name, eps in (("f32_e16_r4", 16), ("f64_e16_r4", 16), ("f64_e4_r0_d", 4), ("f32_e2_r1", 2)):
         for j in range(3 if tier == "quick" else 30):
